@@ -358,6 +358,16 @@ def storeLine (o : OSt) (line : String) : OSt :=
   | _ => o.flag (.bad s!"line: {line}")
 
 
+/-- `kind=stopsync`: Stop overlapping a Sync with unflushed headers: after the restart everything appended before Stop is there -/
+def evalStopSync (_ins outs : List String) : Verdict :=
+  match kv? outs "stop", kvNat? outs "head", (kv? outs "stored").bind natList?, kvNat? outs "want" with
+  | some stop, some hd, some stored, some want =>
+    if stop != "ok" then .ok "stopsync-stop-failed" else   -- a Stop that reports an error promises nothing
+    if hd != want || stored != (List.range want).map (· + 1) then
+      .prop "c06_clean_restart" s!"after Stop (nil) and restart: head={hd} stored={stored}, expected 1..{want}"
+    else .ok "stopsync"
+  | _, _, _, _ => .bad "stopsync fields"
+
 /-- `kind=queued`: a mid-chain range (of the real chain, once the queued Append has been applied) must be rejected
     with no effect, however busy the flush loop was when DeleteRange was called -/
 def evalQueued (ins outs : List String) : Verdict :=
@@ -406,6 +416,7 @@ def evalFlushInHandler (ins outs : List String) : Verdict :=
 /-- DeleteRange(1,to) on 1..n through the PARALLEL path with a refusing handler, then a retry with the handler
 healed (`kind=parfail`).  Pure predicates from the texts of C08 / C14 / C04 on the implementation's observation. -/
 def evalParFail (tag : String) (ins outs : List String) : Verdict :=
+  if kv? ins "kind" == some "stopsync" then evalStopSync ins outs else
   if kv? ins "kind" == some "queued" then evalQueued ins outs else
   if kv? ins "kind" == some "delfault" then evalDelFault ins outs else
   if kv? ins "kind" == some "flushinhandler" then evalFlushInHandler ins outs else
